@@ -107,6 +107,7 @@ func walkCmds(cfg CfgRec) []CmdRec {
 	}
 	add(CmdRec{C: "STARTTLS", A: "ok"})
 	add(CmdRec{C: "STARTTLS", A: "inject"})
+	add(CmdRec{C: "STARTTLS", A: "badhs"})
 	return out
 }
 
@@ -169,7 +170,7 @@ func Walk(srv *drv.Server, cfg CfgRec, rng *rand.Rand, maxSteps int) ([]TraceEve
 		if cmd.C == "MAIL" && cmd.A == "panic" && (proj == nil || !proj.Helo || proj.Bdat) {
 			cmd.A = "ok" // the specification has no panic label there (Mail is not reached)
 		}
-		if cmd.C == "STARTTLS" && cmd.A == "inject" && (!cfg.TlsAvail || cfg.ImplicitTLS || proj != nil && proj.Tls) {
+		if cmd.C == "STARTTLS" && (cmd.A == "inject" || cmd.A == "badhs") && (!cfg.TlsAvail || cfg.ImplicitTLS || proj != nil && proj.Tls) {
 			cmd.A = "ok" // no upgrade will happen: injected lines would be ordinary commands
 		}
 		closingGuess := cmd.C == "QUIT" || cmd.C == "LONG" || (cmd.C == "MAIL" && cmd.A == "panic") ||
@@ -220,7 +221,15 @@ func Walk(srv *drv.Server, cfg CfgRec, rng *rand.Rand, maxSteps int) ([]TraceEve
 			}
 		}
 		rs, rest, syn := wire.ParseAll(out)
-		if cmd.C == "STARTTLS" && len(rs) >= 1 && rs[0].Code == 220 {
+		if cmd.C == "STARTTLS" && cmd.A == "badhs" && len(rs) >= 1 && rs[0].Code == 220 {
+			o, _, err := c.Step([]byte("HELLO"))
+			if err != nil {
+				return nil, hist, err
+			}
+			out = append(out, o...)
+			sent = append(sent, "HELLO")
+			rs, rest, syn = wire.ParseAll(out)
+		} else if cmd.C == "STARTTLS" && len(rs) >= 1 && rs[0].Code == 220 {
 			if err := c.StartTLSClient(); err != nil {
 				return nil, hist, fmt.Errorf("TLS handshake after 220 failed: %v", err)
 			}
